@@ -43,6 +43,20 @@ def suite(wt):
 
 
 def demo(wt, demo_src):
+    cmdtxt = ""
+    try:
+        cmdtxt = open(os.path.join(os.path.dirname(demo_src), "demo_cmd.txt")).read()
+    except Exception:
+        pass
+    if "-p derive_more-impl" in cmdtxt:
+        # parser-level demonstration living in the proc-macro crate's own tests directory
+        os.makedirs(os.path.join(wt, "impl", "tests"), exist_ok=True)
+        dst = os.path.join(wt, "impl", "tests", "seed_demo.rs")
+        shutil.copy(demo_src, dst)
+        rc, out = sh("cargo test -p derive_more-impl --features full --test seed_demo --offline", cwd=wt)
+        os.remove(dst)
+        m = re.findall(r"^test result: (\w+)\. (\d+) passed; (\d+) failed", out, re.M)
+        return rc, m, out
     shutil.copy(demo_src, os.path.join(wt, "tests", "seed_demo.rs"))
     env = dict(ENV)
     if "#![feature(" in open(demo_src).read():
